@@ -135,6 +135,20 @@ def h_jws_custom_parameter():
         check(not header_ok_formula(h, spec, strict, True), "JWS+custom: a header satisfying HeaderOK is accepted")
 
 
+def h_jws_custom_parameter_redeclares_builtin():
+    """A caller-registered parameter that re-declares a built-in name (kid as a required int) is the one enforced."""
+    h = sym_dict("h")
+    req = sym_choice("req", [True, False])
+    reg = JWSRegistry(header_registry={"kid": HeaderParameter("Key ID", "int", req)})
+    spec = dict(JWS_SPEC)
+    spec["kid"] = ("int", req)
+    out = call(reg.check_header, h)
+    if out.returned:
+        check_header_ok(h, spec, True, True, "JWS+redeclared kid")
+    else:
+        check(not header_ok_formula(h, spec, True, True), "JWS+redeclared kid: a header satisfying HeaderOK is accepted")
+
+
 # ---- RFC 7797 registry (b64) -------------------------------------------------------------------
 def h_b64_check_header():
     h = sym_dict("h")
@@ -240,15 +254,16 @@ def h_jwe_pbes2_lax():
     _jwe_check_header(FAMILIES["pbes2"], False)
 
 
-HARNESSES = [h_jws_check_header_sound, h_jws_check_header_complete, h_jws_custom_parameter, h_b64_check_header,
+HARNESSES = [h_jws_check_header_sound, h_jws_check_header_complete, h_jws_custom_parameter, h_jws_custom_parameter_redeclares_builtin, h_b64_check_header,
              h_jwe_plain_strict, h_jwe_plain_lax, h_jwe_ecdh_strict, h_jwe_ecdh_lax, h_jwe_gcmkw_strict,
              h_jwe_gcmkw_lax, h_jwe_pbes2_strict, h_jwe_pbes2_lax, h_jwe_check_header_alg_not_allowed]
 
 
 # seeds for the native witness search (valid headers per family; mutated when an obligation is left undecided)
 _SEED_JWS = {"h": {"alg": "HS256", "kid": "k1", "typ": "JWT", "crit": ["kid"]}}
-for _h in (h_jws_check_header_sound, h_jws_check_header_complete, h_jws_custom_parameter):
-    _h.seeds = [_SEED_JWS, {"h": {"alg": "HS256", "x-custom": "v", "crit": ["x-custom"]}}]
+for _h in (h_jws_check_header_sound, h_jws_check_header_complete, h_jws_custom_parameter, h_jws_custom_parameter_redeclares_builtin):
+    _h.seeds = [_SEED_JWS, {"h": {"alg": "HS256", "x-custom": "v", "crit": ["x-custom"]}}, {"h": {"alg": "HS256"}, "req": 0},
+                {"h": {"alg": "HS256", "kid": "text"}, "req": 1}, {"h": {"alg": "HS256", "kid": 7}, "req": 0}]
 h_b64_check_header.seeds = [{"h": {"alg": "HS256", "b64": False, "crit": ["b64"]}}]
 _JWE_SEEDS = [
     {"h": {"alg": "A128KW", "enc": "A128GCM", "kid": "k", "crit": ["kid"]}, "alg": 3},
